@@ -40,6 +40,14 @@ impl Driver for TokenWorld {
         let n = 3 + rng.next() % 12;
         let cap: u128 = if i % 3 == 0 { 1_000_000_000_000 } else { 1000 };
         let init: Vec<String> = (0..3).map(|_| rng.amount(cap).to_string()).collect();
+        if i % 9 == 4 {
+            // one holder owns the whole supply, approves a spender for all of it, and the spender burns it (in one or two steps)
+            let x = 1 + rng.amount(cap);
+            let mut ops = vec![json!({"op": "allow", "a": 0, "b": 1, "c": 0, "amt": x.to_string(), "mode": 0, "exp": Value::Null, "tick": 0})];
+            if rng.next() % 2 == 0 { ops.push(json!({"op": "burn_from", "a": 0, "b": 1, "c": 0, "amt": "1", "mode": 3, "exp": Value::Null, "tick": 0})); }
+            ops.push(json!({"op": "burn_from", "a": 0, "b": 1, "c": 0, "amt": "1", "mode": 1, "exp": Value::Null, "tick": 0}));
+            return json!({"init": [x.to_string(), "0", "0"], "ops": ops});
+        }
         let mut ops = vec![];
         for _ in 0..n {
             let (mut a, mut b, c) = (rng.next() % 6, rng.next() % 6, rng.next() % 6);
